@@ -231,6 +231,19 @@ func runTS(line []byte, rec *recorder) {
 			finishPacket(p, r, 0)
 			vec("pid", p)
 		}
+	case "special": // PIDs with a role of their own (PAT, CAT, TSDT, DVB SI, null, ...) carrying arbitrary payload bytes
+		for _, pid := range []int{0, 1, 2, 3, 0x10, 0x11, 0x12, 0x13, 0x14, 0x1e, 0x1f, 0x20, 0x47, 0x147, 0x1000, 0x1ffb, 0x1ffe, 0x1fff} {
+			for rep := 0; rep < 6; rep++ {
+				h := hdr()
+				h.PID, h.HasPayload, h.HasAdaptationField = uint16(pid), true, rep%2 == 1
+				p := &astits.Packet{Header: h}
+				if h.HasAdaptationField {
+					p.AdaptationField = randAF(r, r.intn(16), 0)
+				}
+				finishPacket(p, r, r.pick(0, 3))
+				vec("special-pid", p)
+			}
+		}
 	case "hdr":
 		for cc := 0; cc < 16; cc++ {
 			for scr := 0; scr < 4; scr++ {
